@@ -517,6 +517,9 @@ func (b *Builder) of1(v ssa.Value, at ssa.Instruction, depth int) *Term {
 		}
 		return b.mk("un", x.Op.String(), v, b.of(x.X, at, depth+1))
 	case *ssa.Phi:
+		if init, step, ok := inductionPhi(x); ok {
+			return b.mk("ind", step, v, b.of(init, at, depth+1))
+		}
 		var args []*Term
 		seen := map[string]bool{}
 		for _, e := range x.Edges {
@@ -587,6 +590,40 @@ func (b *Builder) of1(v ssa.Value, at ssa.Instruction, depth int) *Term {
 		return b.mk("select", "", v)
 	}
 	return b.mk("unknown", fmt.Sprintf("%T", v), v)
+}
+
+// inductionPhi recognises phi(init, phi±c): a counter with constant step.
+func inductionPhi(p *ssa.Phi) (init ssa.Value, step string, ok bool) {
+	if len(p.Edges) < 2 {
+		return nil, "", false
+	}
+	var inc *ssa.BinOp
+	for _, e := range p.Edges {
+		bo, isBin := e.(*ssa.BinOp)
+		if !isBin || (bo.Op != token.ADD && bo.Op != token.SUB) || bo.X != p {
+			continue
+		}
+		if c, isC := bo.Y.(*ssa.Const); isC && c.Value != nil {
+			inc = bo
+			break
+		}
+	}
+	if inc == nil {
+		return nil, "", false
+	}
+	for _, e := range p.Edges {
+		if e == ssa.Value(inc) {
+			continue
+		}
+		if init != nil && init != e {
+			return nil, "", false
+		}
+		init = e
+	}
+	if init == nil {
+		return nil, "", false
+	}
+	return init, inc.Op.String() + inc.Y.(*ssa.Const).Value.ExactString(), true
 }
 
 var swapOp = map[string]string{
@@ -781,7 +818,11 @@ func (b *Builder) pathTerm(addr, root ssa.Value, depth int) *Term {
 	case *ssa.FieldAddr:
 		return b.mk("faddr", fieldName(x.X.Type(), x.Field), nil, b.pathTerm(x.X, root, depth))
 	case *ssa.Slice:
-		return b.mk("slice", "", nil, b.pathTerm(x.X, root, depth), b.ofOpt(x.Low, x, depth+1), b.ofOpt(x.High, x, depth+1))
+		lo := b.ofOpt(x.Low, x, depth+1)
+		if x.Low == nil {
+			lo = &Term{Op: "const", Name: "0", C: constant.MakeInt64(0)}
+		}
+		return b.mk("slice", "", nil, b.pathTerm(x.X, root, depth), lo, b.ofOpt(x.High, x, depth+1))
 	case *ssa.ChangeType:
 		return b.pathTerm(x.X, root, depth)
 	}
